@@ -48,8 +48,12 @@ CHECKS["C04"] = {
     "level": "model_checking",
     "rule": "Engine A: every interleaving (event sequences, depth 4 quick / 5 thorough) of three clients c1=(10.0.0.2:4000,u1), c2=(same IP other port,u2), c3=(other IP,u1) "
             "each doing {Allocate with one shared transaction id, Refresh0, CreatePermission [A], ChannelBind (n1,A),(n1,B)} plus clock advances around deadlines, "
-            "2 timeout configurations; " + SWEEP + "The reference model is keyed by client 5-tuple, so any cross-allocation effect is a disagreement.",
-    "parts": [A("vtx", "./checks/c04", "TestC04", budget={"quick": 90, "thorough": 1500})],
+            "2 timeout configurations; " + SWEEP + "The reference model is keyed by client 5-tuple, so any cross-allocation effect is a disagreement. "
+            "Part family: clients 10.0.0.2:4000, [::10.0.0.2]:4000 (same port, IPv4-compatible IPv6 form) and 10.0.0.2:4001. Part tcp: two TCP allocations of different users on one stream listener reusing "
+            "peers for Connect / inbound connections / ConnectionBind (own and the other client's connection ids).",
+    "parts": [A("vtx", "./checks/c04", "TestC04", budget={"quick": 90, "thorough": 1500}),
+              A("family", "./checks/c04", "TestC04Family", budget={"quick": 60, "thorough": 900}),
+              A("tcp", "./checks/c04", "TestC04TCP", budget={"quick": 90, "thorough": 1500})],
 }
 CHECKS["C08"] = {
     "level": "model_checking",
@@ -212,6 +216,21 @@ CHECKS["C16"] = {
             "byte sequences in both directions, nothing echoed, close propagates; duplicate Connect -> 446 and a further request is still served; after every event relay-side connections == model, AllocationCount, relay "
             "listeners; (thorough) also with the deny-B operator policy: refused target never dialled.",
     "parts": [A("vtx", "./checks/c16", "TestC16", budget={"quick": 120, "thorough": 1800})],
+}
+
+CHECKS["C12"] = {
+    "level": "fault_enumeration",
+    "technique": "exhaustive fault enumeration (loss / duplication / delay / reordering / write error / Close placement) on the real turn.Client in virtual time against a reference computed from the property text",
+    "rule": "Engine A fault enumeration: real turn.Client (Listen running) over simnet in one synctest bubble per case, the harness as scripted server acting at exact virtual instants. Single transaction: complete product of "
+            "RTO {default,100,200,400,800,1600 ms} (thorough 12 values incl. 1 ms, 799/800/801, 1599/1600) x set of answered transmissions {never, each single i in 1..7, every pair} (thorough: all 127 subsets) x response delay "
+            "{at once, half interval, next timer -1ns, next timer +1ns, after the final failure} x noise {none, two responses whose ids differ in one bit, the matching response twice, a response for a finished transaction, "
+            "a non-STUN datagram from the server address / another address, a matching-id response from another source} x write error on transmission j in {none,1..7} x Close placement {never, before, right after transmission k, "
+            "racing the timer of transmission k or of the final failure, just before / concurrent with the answer}. Concurrent: two transactions whose ids differ in one bit x answer plans x start offset x duplicates x delivery orders x Close. "
+            "Oracle: byte-identical requests at exactly t0,+RTO,+2RTO.. capped 1.6 s, at most 7; PerformTransaction returns exactly once at the predicted nanosecond with its own response or the predicted error, never another id; "
+            "afterwards a late response for every finished id is delivered and a fresh transaction must still complete (read loop alive), then Close, 10 s of silence, sockets closed, bubble drains. "
+            "A class is (answer kind, noise, write-error kind, close kind -> observed completion).",
+    "parts": [A("single", "./checks/c12", "TestC12Single", budget={"quick": 60, "thorough": 900}),
+              A("concurrent", "./checks/c12", "TestC12Concurrent", budget={"quick": 60, "thorough": 900})],
 }
 
 ENGINES = [
